@@ -58,7 +58,8 @@ PATHS = ["/", "/a", "/a/b", "/ab", "/p", "/a/b/c", "/q"]
 KEYS = ["a", "b", "k k", "é", "x&y", "q=1", "n"]
 VALS = ["1", "hello", "é z", "a+b", "100%", "", "a&b=c", "中"]
 # handler bodies: (source after the rec call, raises?)
-BODIES = [('"one"', False), ("42", False), ('x?"a"', False), ("[1 2 3]", False), ("2.5", False), ('"t:",(x?"b")', False), ("boom(1)", True)]
+BODIES = [('"one"', False), ("42", False), ('x?"a"', False), ("[1 2 3]", False), ("2.5", False), ('"t:",(x?"b")', False), ("boom(1)", True),
+          ("(:{[1 2]})@7", True)]      # the last one fails with a KeyError (index of a missing dictionary key)
 
 
 def scenario(ch, cfg):
